@@ -142,6 +142,9 @@ func evalOutcome(oc *Outcome) []finding {
 	if len(oc.FdFinal) > 0 {
 		out = append(out, finding{"no descriptor remains after everything was closed", "life-fd-leak:" + t, strings.Join(oc.FdFinal, "; ")})
 	}
+	if len(oc.StreamLeft) > 0 {
+		out = append(out, finding{"no goroutine or listener created by the closed ServerStream remains", "life-stream-multicast-left", strings.Join(oc.StreamLeft, "\n")})
+	}
 	if len(oc.StreamLate) > 0 {
 		if t == "session" {
 			out = append(out, finding{"ServerSession.Close closes the session", "life-session-not-closed", "sessions " + strings.Join(oc.StreamLate, ",")})
